@@ -36,7 +36,6 @@ where
 /*@*/         cleanup_post_exact(old, new, vstd::prelude::old(ops)@, final(ops)@),   // [C11]
 {
     /*@*/ let ghost ops0 = ops@;
-    /*@*/ proof { lemma_post_refl(old, new, ops0); }
     // First attempt to compact all Deletions
     let mut pointer = 0;
     while let Some(op__r) = ops.get(pointer)
@@ -104,6 +103,7 @@ where
 //@@ end
 
 //@@ item src/algorithms/compact.rs :: ^fn shift_diff_ops_up rw=R0,R8,R2,R10
+/*@*/ #[verifier::rlimit(30)]
 fn shift_diff_ops_up<Old, New>(
     ops: &mut Vec<DiffOp>,
     old: &Old,
@@ -167,6 +167,7 @@ where
                     /*@*/     lemma_do_shift_up(old, new, ops0, s1, p, suffix_len, bw);
                     /*@*/ }
                 } else if ops[pointer - 1].is_empty() {
+                    /*@*/ assert(false);   // dead: no op is empty at the loop head
                     ops.remove(pointer - 1);
                     pointer -= 1;
                 } else {
@@ -179,8 +180,8 @@ where
                 // check common suffix for the amount we can shift
                 let suffix_len =
                     common_suffix_len(old, prev_op.old_range(), new, this_op.new_range());
-                /*@*/ assert(suffix_len == 0);
                 if suffix_len != 0 {
+                    /*@*/ assert(false);   // dead: common_suffix_len of an empty new range is 0
                     if let Some(DiffTag::Equal) = match (ops.get(pointer + 1)) { Some(x) => Some(x.tag()), None => None } {
                         ops[pointer + 1].grow_left(suffix_len);
                     } else {
@@ -202,6 +203,7 @@ where
                         pointer -= 1;
                     }
                 } else if ops[pointer - 1].is_empty() {
+                    /*@*/ assert(false);   // dead: no op is empty at the loop head
                     ops.remove(pointer - 1);
                     pointer -= 1;
                 } else {
@@ -247,6 +249,7 @@ where
 //@@ end
 
 //@@ item src/algorithms/compact.rs :: ^fn shift_diff_ops_down rw=R0,R8,R2,R10
+/*@*/ #[verifier::rlimit(30)]
 fn shift_diff_ops_down<Old, New>(
     ops: &mut Vec<DiffOp>,
     old: &Old,
@@ -314,6 +317,7 @@ where
                     /*@*/     lemma_do_shift_down(old, new, ops0, s1, p, prefix_len, bw);
                     /*@*/ }
                 } else if ops[pointer + 1].is_empty() {
+                    /*@*/ assert(false);   // dead: no op is empty at the loop head
                     ops.remove(pointer + 1);
                 } else {
                     // We can't shift upwards anymore
@@ -325,8 +329,8 @@ where
                 // check common suffix for the amount we can shift
                 let prefix_len =
                     common_prefix_len(old, next_op.old_range(), new, this_op.new_range());
-                /*@*/ assert(prefix_len == 0);
                 if prefix_len > 0 {
+                    /*@*/ assert(false);   // dead: common_prefix_len of an empty new range is 0
                     if let Some(DiffTag::Equal) = match (match (pointer
                         .checked_sub(1)
                         ) { Some(x) => ops.get(x), None => None }
@@ -351,6 +355,7 @@ where
                         ops.remove(pointer + 1);
                     }
                 } else if ops[pointer + 1].is_empty() {
+                    /*@*/ assert(false);   // dead: no op is empty at the loop head
                     ops.remove(pointer + 1);
                 } else {
                     // We can't shift downwards anymore
